@@ -2984,6 +2984,20 @@ def _sentinel_search(stmts):
     """v = None; for ...: if c: v = X; break      if v is not None: <leave, using v>
        ->  for ...: if c: <leave, using X>"""
     out = list(stmts)
+    # statements between `v = None` and the loop that do not mention v (what an unfolded generator computes first) are moved
+    # in front of the assignment: the three statements of the pattern become adjacent
+    for k_ in range(1, len(out) - 1):
+        if isinstance(out[k_], (ast.For, ast.While)) and isinstance(out[k_ + 1], ast.If):
+            t_ = out[k_ + 1].test
+            if isinstance(t_, ast.Compare) and isinstance(t_.left, ast.Name) and len(t_.ops) == 1 and isinstance(t_.ops[0], (ast.Is, ast.IsNot)):
+                v_ = t_.left.id
+                j_ = k_ - 1
+                while j_ >= 0 and isinstance(out[j_], (ast.Assign, ast.Expr)) and not any(isinstance(x, ast.Name) and x.id == v_ for x in ast.walk(out[j_])):
+                    j_ -= 1
+                if 0 <= j_ < k_ - 1 and isinstance(out[j_], ast.Assign) and len(out[j_].targets) == 1 and isinstance(out[j_].targets[0], ast.Name) and out[j_].targets[0].id == v_ \
+                        and isinstance(out[j_].value, ast.Constant) and out[j_].value.value is None:
+                    a_ = out.pop(j_)
+                    out.insert(k_ - 1, a_)
     i = 0
     while i + 2 < len(out) + 0 and i + 2 <= len(out) - 1:
         a, lp, chk = out[i], out[i + 1], out[i + 2]
